@@ -97,8 +97,8 @@ func VerifC06_V2AddReadBack() {
 type verifBackend struct {
 	backendAPI.Backend
 	calls     int
-	faultAt   int    // call ordinal (over Put/Rename/RenameNX/Get) at which the fault strikes, -1 = never
-	faultMode int    // 0 = call fails with an error, 1 = crash before the call, 2 = crash after the call
+	faultAt   int // call ordinal (over Put/Rename/RenameNX/Get) at which the fault strikes, -1 = never
+	faultMode int // 0 = call fails with an error, 1 = crash before the call, 2 = crash after the call
 	crashed   bool
 }
 
